@@ -73,8 +73,20 @@ func c05Jobs(tier string) []string {
 		add(base+",w=12x100,b=2", 16)
 		add(base+",w=6x100,cc=cubic,b=2", 8)
 		add(base+",w=6x100,iss=4294966900,b=2", 8)
+		for _, f := range []int{3, 5, 8, 12} {
+			for _, rtt := range []int{0, 50, 300, 1500} {
+				add(fmt.Sprintf("%s,w=%dx100,rtt=%d,b=2", base, f, rtt), 16)
+			}
+			add(fmt.Sprintf("%s,w=%dx100,psack=1,sack=1,ts=1,b=2", base, f), 16)
+		}
+		add("or=r,devs=l,mss=100,w=3000,silent=1,b=2", 16)
+		add("or=r,devs=lh,mss=100,w=3000,silent=1,rtt=50,b=2", 16)
+		add(base+",w=3000,b=2", 16)
+		add(base+",w=4x100,b=3", 16)
+		add(base+",w=6x100,rtt=150,b=3", 32)
 	} else {
 		add(base+",w=5x100,rtt=150,b=2", 8)
+		add(base+",w=3000,b=2", 16) // two losses in one window: a second episode for data sent during the first
 	}
 	return jobs
 }
